@@ -25,3 +25,10 @@ func VerifHashNamedProtoBundles(names []string, protos [][]byte) string {
 
 	return hashNamedProtoBundles(bundles)
 }
+
+// VerifBuilderOpts returns the options a builder hands to the resolvers it builds
+// (after ResolverOpts.withDefaults and the builder's own additions).
+func VerifBuilderOpts(rb *ResolverBuilder) ResolverOpts { return rb.opts }
+
+// VerifResolverOpts returns the options a resolver runs with.
+func VerifResolverOpts(r *Resolver) ResolverOpts { return r.opts }
